@@ -38,12 +38,10 @@ def run(ctx):
         ctls = [e for e in p.events if e.kind == 'call' and e.ftext == 'Controller']
         ok = len(calls) == 1 and len(cms) == 1 and len(ctls) == 1
         if ok:
-            rep = {'ConnectionManager()': 'CM', norm(ctls[0].node).replace('connection_list', 'ConnectionManager()'): 'CTL'}
-            got = []
-            for a in calls[0].node.args:
-                t = norm(a)
-                got.append({'connection_list': 'CM', 'ui_controller': 'CTL'}.get(t, t))
-            ok = got == want and norm(ctls[0].node.args[0]) == 'output' and norm(ctls[0].node.args[1]) == 'connection_list'
+            # the call events carry the arguments in parameter order with locals replaced by what they hold
+            cm_t, ctl_t = cms[0].text, ctls[0].text
+            got = [{cm_t: 'CM', ctl_t: 'CTL'}.get(norm(a), norm(a)) for a in calls[0].args]
+            ok = got == want and not calls[0].kwargs and len(ctls[0].args) >= 2 and norm(ctls[0].args[0]) == 'output' and norm(ctls[0].args[1]) == cm_t
         ctx.check(ok, 'C13.1', 'pipeline:%s' % mode, f_main.loc(calls[0].node if calls else None),
                   'mode %s feeds the one ConnectionManager / Controller / Output of this run through %s' % (mode, fn),
                   'mode %s is wired as %s' % (mode, [e.text[:100] for e in calls]))
